@@ -1,11 +1,14 @@
 """C08 — Every target function can be fingerprinted, deterministically."""
+import base64
 import os
 import re
+import threading
 from lib.vlib import *
 
 META = {
     "property_id": "C08",
-    "technique": "Coq proof (termination, coverage, determinism and sensitivity of the environment traversal) + reified-graph correspondence + edit-menu oracle on real loads",
+    "technique": "Coq proof (termination, coverage, determinism and sensitivity of the environment traversal) + reified-graph correspondence + edit-menu oracle on real loads "
+                 "+ collection-size/position sweep + schedule families (controlled interleavings, free goroutines, the runner; race detector)",
     "level_text": "Theorems (Coq, all graphs): fingerprint_terminates (the traversal done by recursionPickler/envPickler under the "
                   "encoder's memo terminates on every function graph, recursion and mutual recursion included); "
                   "fingerprint_covers_reachable (the code of every reachable function is in the fingerprint); "
@@ -22,7 +25,13 @@ META = {
                   "terminates without error/crash/hang for recursion, mutual recursion, closures, defaults, nested defs, lambdas, "
                   ">1000-element and cyclic data, every predeclared value; identical text re-loaded (other file order, other "
                   "GOMAXPROCS) gives the identical stamp; every edit of a menu of referenced codes/values/references changes it (as the engine "
-                  "compares it: diffEnv), every cosmetic / other-package edit does not.",
+                  "compares it: diffEnv), every cosmetic / other-package edit does not. "
+                  "Collection sweep (one process, one Load per edit): for every size next to a multiple of the encoder's batch of 1000 and the small / 255-257 / random sizes, "
+                  "a list, tuple, dict (by value, by key), set, nested list, default list, captured list, string, bytes and range of that size, each referenced by its own target; "
+                  "replacing the element at the head, the tail, either side of each batch boundary or a random position, or appending one, changes the fingerprint of every target that references it. "
+                  "Schedules: the fingerprint of a target is the one computed alone when another target is fingerprinted inside every single write of its pickling, when all "
+                  "targets are fingerprinted at once by one goroutine each, and when the real runner builds them as independent dependencies (records = stamps computed alone, a fresh load "
+                  "finds them up to date); the race detector reports no memory shared between two targets' fingerprint computations.",
     "level_note": "Trusted: Coq kernel; the model abstracts values to the function objects they mention (byte-level codec = C07) and a "
                   "function's own payload (bytecode, constants, names, non-function values) to one code identity, so model-level "
                   "sensitivity is sensitivity to that identity and to the reference structure; a memo reference is modelled by the ordinal "
@@ -79,13 +88,29 @@ def run(ctx):
         ctx.violation("the fingerprint model does not build", {"theorem_or_correspondence": "Fingerprint/Run.v", "log": outb[-2000:]}, found_input=False)
         return
     out = os.path.join(ctx.tmp, "c08.tsv")
-    rc, o = ctx.go_overlay_test("", {"zz_verif_c08_test.go": os.path.join(HARNESS, "overlay/root/zz_verif_c08_test.go")},
-                                "^TestVerifC08$", {"VERIF_OUT": out, "VERIF_SEED": str(ctx.seed), "VERIF_NRAND": "12" if ctx.quick() else "150"}, timeout=1200)
+    files = {n: os.path.join(HARNESS, "overlay/root", n) for n in
+             ("zz_verif_c08_test.go", "zz_verif_c08_sweep_test.go", "zz_verif_c08_conc_test.go")}
+    env = {"VERIF_OUT": out, "VERIF_SEED": str(ctx.seed), "VERIF_NRAND": "12" if ctx.quick() else "150",
+           "VERIF_C08_THOROUGH": "0" if ctx.quick() else "1"}
+    # the schedule families once more under the race detector, in parallel with the main run (a second build of the package)
+    race = {}
+
+    def race_run():
+        rroot = os.path.join(ctx.tmp, "c08-race-root")
+        os.makedirs(rroot, exist_ok=True)
+        renv = {"VERIF_C08_CHILD": "conc", "VERIF_ROOT": rroot, "VERIF_REPORT": os.path.join(ctx.tmp, "c08-race.tsv"),
+                "VERIF_SEED": str(ctx.seed), "VERIF_C08_THOROUGH": env["VERIF_C08_THOROUGH"], "GOMAXPROCS": "8", "CGO_ENABLED": "1"}
+        race["rc"], race["out"] = ctx.go_overlay_test("", files, "^TestVerifC08Conc$", renv, timeout=900, extra=["-race"])
+    rt = threading.Thread(target=race_run)
+    rt.start()
+    rc, o = ctx.go_overlay_test("", files, "^TestVerifC08$", env, timeout=1800)
+    rt.join()
     if rc != 0 or not os.path.exists(out):
         ctx.log(o[-2000:])
         ctx.violation("C08 harness failed to build or run (exit %d)" % rc, {"theorem_or_correspondence": "C08 harness", "output": o[-2000:]}, found_input=False)
         return
     cases, graphs, oracles = [], [], []
+    texts = {}
     for line in open(out):
         f = line.rstrip("\n").split("\t")
         if f[0] == "ORACLE":
@@ -94,20 +119,81 @@ def run(ctx):
             cases.append(f[1:])
         elif f[0] == "graph":
             graphs.append(f[1:])
+        elif f[0] == "text":
+            texts[f[1]] = base64.b64decode(f[2]).decode("utf-8", "replace")
     ctx.coverage["evaluations"] = len(cases) + len(graphs)
     ctx.coverage["distinct_nontrivial"] = len({tuple(c[:2]) for c in cases})
     ctx.coverage["rule"] = ("fixed menu of %d BUILD programs (plain, recursion, mutual recursion, self-recursive target, closure, defaults, "
                             "nested defs + lambda + comprehension, helper module, 2500-element and cyclic data, every predeclared value, "
                             "target reference, function-keyed dict, two/three same-named closures and lambdas in progress, a helper shared through a list, 13 parameter shapes (positional, defaults, *args, keyword-only with/without defaults in every order, **kwargs) and 8 capture shapes (0-3 variables, never assigned, assigned later, shared by two closures)) plus seeded random call graphs of 2-7 helpers (self loops, mutual recursion, a helper in a global list, one as a default argument; every helper's body edited in turn, reachable or not), each loaded in its own process: base load, two re-loads of the identical "
                             "text (shuffled file creation order, GOMAXPROCS 1 and 4), then one load per edit of its menu (relevant edits must "
-                            "change the fingerprint as diffEnv sees it, irrelevant ones must not); a case = (program, edit)" % len({c[0] for c in cases}))
-    ctx.coverage["correspondence"]["distribution"] = {"programs": len({c[0] for c in cases}), "edits": len(cases), "graphs": len(graphs)}
+                            "change the fingerprint as diffEnv sees it, irrelevant ones must not); a case = (program, edit). "
+                            "Collection sweep: per size n (every size within -2..+3 of a multiple of the encoder's batch of 1000, the small sizes, 255-257, seeded random sizes; thorough: also 65535-65537) "
+                            "a program with one target per way of referencing an n-element collection (list, tuple, dict by value, dict by key, set, list nested in a dict, list as default, "
+                            "list captured by a closure, string, bytes, range), literal or built by comprehensions; edits: replace element p for p at the head, the tail and both sides of every batch boundary "
+                            "plus seeded random p, and append one element; every referencing target must change. "
+                            "Schedules: k independent targets each referencing a value of every codec kind (all values distinct): target B fingerprinted inside EVERY write of target A's pickling, "
+                            "one goroutine per target fingerprinting at once, the real runner building a target that depends on all k then a fresh load; each must give the fingerprints computed alone; "
+                            "the same once more under the race detector" % len({c[0] for c in cases if not c[0].startswith(("collections-", "concurrent/"))}))
+    ctx.coverage["correspondence"]["distribution"] = {"programs": len({c[0] for c in cases if not c[0].startswith(("collections-", "concurrent/"))}),
+                                                      "edits": len([c for c in cases if not c[0].startswith(("collections-", "concurrent/"))]), "graphs": len(graphs),
+                                                      "collection_sizes": len({c[0].split("/")[0] for c in cases if c[0].startswith("collections-")}),
+                                                      "collection_cases": len([c for c in cases if c[0].startswith("collections-")]),
+                                                      "schedule_cases": len([c for c in cases if c[0].startswith("concurrent/")])}
     ctx.add_samples([c[:4] for c in cases[:3]] + [g[:3] for g in graphs[1:3]])
+    # oracle failures of the two families are many lines of one defect: one violation per (family, oracle), inputs listed
+    grouped, single = {}, []
     for o_ in oracles:
+        fam = "collections" if o_[1].startswith("collections-") else "concurrent" if o_[1].startswith("concurrent/") else None
+        if fam:
+            grouped.setdefault((fam, o_[0]), []).append(o_)
+        else:
+            single.append(o_)
+    for (fam, orc), lst in sorted(grouped.items()):
+        how = ("harness/overlay/root/zz_verif_c08_sweep_test.go: program c08SweepText(n, ...) for the size n in the name, target and edit as named"
+               if fam == "collections" else
+               "harness/overlay/root/zz_verif_c08_conc_test.go: project c08ConcText(k, seed), schedule as named")
+        ctx.violation("implementation violates C08 (%s, %d inputs of the %s family): %s: %s" % (orc, len(lst), fam, lst[0][1], lst[0][2] if len(lst[0]) > 2 else ""),
+                      {"oracle": orc, "family": fam, "failing_inputs": [x[1] for x in lst[:12]], "detail": [x[2:] for x in lst[:4]],
+                       "number_of_failing_inputs": len(lst), "how": how,
+                       "BUILD.dawn": texts.get(fam, "(regenerate: see how)")})
+    for o_ in single:
         key = None
         ctx.violation("implementation violates C08 (%s): %s: %s" % (o_[0], o_[1], o_[2] if len(o_) > 2 else ""),
                       {"oracle": o_[0], "program_and_edit": o_[1], "detail": o_[2:],
                        "how": "harness/overlay/root/zz_verif_c08_test.go, program menu c08Programs()"}, key=key)
+    # race detector over the schedule families
+    rout = race.get("out", "")
+    nraces = rout.count("WARNING: DATA RACE")
+    ctx.coverage["correspondence"]["race_detector"] = {"exit": race.get("rc"), "data_races": nraces}
+    if nraces:
+        first = rout[rout.index("WARNING: DATA RACE"):]
+        first = first[:first.find("==================")] if "==================" in first else first
+        frames = []
+        for l in first.splitlines():
+            if l.startswith("      ") and frames:
+                frames[-1] += "  " + l.strip().split(" +0x")[0]
+            elif l.strip():
+                frames.append(l.strip())
+        frames = frames[:26]
+        ctx.violation("two targets' fingerprints computed at the same time share memory (%d data races reported by the race detector): "
+                      "a fingerprint can depend on the schedule" % nraces,
+                      {"oracle": "race detector", "project": "c08ConcText(k, seed): k independent targets, each fingerprinted by its own goroutine / by the runner",
+                       "first_report": frames, "BUILD.dawn": texts.get("concurrent", ""), "how": "go test -race -run ^TestVerifC08Conc$ with VERIF_C08_CHILD=conc (harness/overlay/root/zz_verif_c08_conc_test.go)"})
+    elif race.get("rc") != 0:
+        rrep = os.path.join(ctx.tmp, "c08-race.tsv")
+        ror = [l.rstrip("\n").split("\t") for l in open(rrep)] if os.path.exists(rrep) else []
+        ror = [l for l in ror if l[0] == "ORACLE"]
+        if ror and not oracles:
+            ctx.violation("implementation violates C08 under the race detector's schedules (%s): %s: %s" % (ror[0][1], ror[0][2], ror[0][3] if len(ror[0]) > 3 else ""),
+                          {"oracle": ror[0][1], "failing_inputs": [x[2] for x in ror[:12]], "how": "zz_verif_c08_conc_test.go under go test -race"})
+        elif not ror and not oracles and re.search(r"-race requires cgo|-race is only supported|C compiler .* not found|exec: \"(gcc|cc|clang)\"", rout):
+            # no race detector on this machine: the three schedule families of the main run stand alone
+            ctx.log("race detector unavailable:", rout.strip().splitlines()[-1][:200] if rout.strip() else "")
+            ctx.coverage["correspondence"]["race_detector"] = {"exit": race.get("rc"), "unavailable": True}
+        elif not ror and not oracles:
+            ctx.violation("the race-detector run of the C08 schedule families failed to build or run (exit %s)" % race.get("rc"),
+                          {"theorem_or_correspondence": "C08 harness (-race)", "output": rout[-1500:]}, found_input=False)
     exprs = []
     items = []
     for i, g in enumerate(graphs):
@@ -121,7 +207,7 @@ def run(ctx):
         mism = [x for r in res for x in r]
         ctx.coverage["correspondence"]["graph_mismatches"] = len(mism)
         ctx.log("programs=%d cases=%d graphs=%d graph_mismatches=%d oracle_failures=%d" % (
-            len({c[0] for c in cases}), len(cases), len(graphs), len(mism), len(oracles)))
+            len({c[0].split("/")[0] for c in cases}), len(cases), len(graphs), len(mism), len(oracles)))
         if mism and not oracles:
             ctx.violation("fingerprint model and implementation disagree on the expansion tree of %s" % [graphs[i][0] for i in mism],
                           {"theorem_or_correspondence": "correspondence Fingerprint/Model.v <-> function.go recursionPickler/envPickler + pickle/encode.go memo",
